@@ -3,6 +3,7 @@ package c08
 import (
 	"github.com/ChrisTrenkamp/xsel"
 
+	"verifharness/c01"
 	"verifharness/hx"
 	"verifharness/nd"
 	"verifharness/spec"
@@ -66,4 +67,68 @@ func RunAbbrev() {
 		r2, e2 := xsel.Exec(ctx, g2)
 		nd.Assert(sameOutcome(r1, e1, r2, e2), "abbrev.equals-expansion:"+safe(short))
 	}
+}
+
+type naEntry struct {
+	src string
+	ast spec.Expr
+}
+
+// nonASCIICases: multi-byte characters in literals, element names, variable
+// names and after them (token extents are counted in characters, the source
+// text in bytes).
+func nonASCIICases() []naEntry {
+	var out []naEntry
+	add := func(e spec.Expr) { out = append(out, naEntry{src: spec.RenderAbbrev(e), ast: e}) }
+	r := spec.S("child", spec.NameTest("", "r"))
+	for _, c := range []string{"é", "日", "𝒳"} {
+		nm := spec.NameTest("", c)
+		lit := spec.Str{V: c}
+		add(lit)                                                                                                                                // 'é'
+		add(spec.Fn("concat", lit, spec.Str{V: "xyz"}))                                                                                         // concat('é','xyz')
+		add(spec.Bin{Op: "+", L: spec.Fn("string-length", lit), R: spec.Num{V: 25}})                                                            // string-length('é') + 25
+		add(spec.AbsP(r, spec.S("child", nm)))                                                                                                  // /r/é
+		add(spec.AbsP(r, spec.S("child", nm), spec.S("child", spec.NameTest("", "a"))))                                                         // /r/é/a
+		add(spec.AbsP(dosStep(), spec.S("child", nm, spec.Bin{Op: "=", L: spec.Rel(spec.S("self", spec.NodeTest{Kind: spec.TNode})), R: lit}))) // //é[. = 'é']
+		add(spec.AbsP(r, spec.S("child", nm), spec.S("child", spec.NodeTest{Kind: spec.TText})))                                                // /r/é/text()
+		add(spec.AbsP(r, spec.S("child", nm), spec.S("following-sibling", spec.NameTest("", "*"))))                                             // /r/é/following-sibling::*
+		add(spec.Bin{Op: "=", L: spec.Var{Local: c}, R: spec.Num{V: 7}})                                                                        // $é = 7
+		add(spec.Fn("count", spec.AbsP(r, spec.S("attribute", nm))))                                                                            // count(/r/@é)
+	}
+	return out
+}
+
+func dosStep() spec.Step { return spec.S("descendant-or-self", spec.NodeTest{Kind: spec.TNode}) }
+
+// RunNonASCII: queries with multi-byte characters are tokenised and evaluated
+// like any other (reference model on the same syntax tree).
+func RunNonASCII() {
+	cases := nonASCIICases()
+	el := func(n string) hx.Event { return hx.Event{N: hx.Elem{Name: n}} }
+	end := hx.Event{End: true}
+	tx := func(s string) hx.Event { return hx.Event{N: hx.Text{Val: s}} }
+	ev := []hx.Event{el("r"), {N: hx.Attr{Name: "é", Val: "1"}}, {N: hx.Attr{Name: "𝒳", Val: "2"}}}
+	for _, c := range []string{"é", "日", "𝒳"} {
+		ev = append(ev, el(c), tx(c), el("a"), end, end, el("a"), tx("x"+c), end)
+	}
+	ev = append(ev, end)
+	b := hx.FromEvents(ev)
+	nd.Assert(b.TieOK, "store-mirrors-script")
+	k := nd.Choice(len(cases))
+	c := cases[k]
+	g := compile(c.src)
+	nd.Reach("non-ascii")
+	nd.Assert(g != nil, "non-ascii.accepts:"+safe(c.src))
+	if g == nil {
+		return
+	}
+	bind := &spec.Bindings{NS: map[string]string{}, Vars: map[string]spec.Val{}}
+	var set []xsel.ContextApply
+	for _, v := range []string{"é", "日", "𝒳"} {
+		bind.Vars[v] = spec.Val{T: spec.TNum, N: 7}
+		set = append(set, xsel.WithVariable(v, xsel.Number(7)))
+	}
+	r, err := xsel.Exec(b.Root, g, set...)
+	want := b.Doc.Eval(c.ast, spec.Ctx{Node: 0, Pos: 1, Size: 1}, bind)
+	c01.CompareResult(b, r, err, want, false, "non-ascii:"+safe(c.src))
 }
